@@ -54,7 +54,8 @@ def num_eq(a, b, scale=1.0) -> bool:
         return a is b
     if MODE.symbolic:
         return a == b
-    tol = scale * (0.6 * 10 ** (-MODE.decimal_places)) + 1e-9 * max(1.0, abs(a), abs(b))
+    # half a unit of the last printed place (with 20% slack) plus a few ulps of float arithmetic
+    tol = scale * (0.6 * 10 ** (-MODE.decimal_places)) + 1e-14 * max(1.0, abs(a), abs(b))
     if a != a or b != b:
         return (a != a) and (b != b)
     if a in (float("inf"), float("-inf")) or b in (float("inf"), float("-inf")):
